@@ -468,7 +468,11 @@ func (e *kvElection) attemptPriorityTakeover(payloadBytes []byte) error {
 
 	var currentPayload leadershipPayload
 	if err := json.Unmarshal(entry.Value(), &currentPayload); err != nil {
-		return e.attemptAcquire()
+		// Do not call attemptAcquire() from here: it calls back into this function
+		// for as long as the record stays unparsable, recursing without any delay.
+		// Report the failure and let the caller's retry/backoff or the next
+		// watch event / periodic check try again.
+		return fmt.Errorf("cannot parse current leadership record: %w", err)
 	}
 
 	if e.cfg.Priority <= currentPayload.Priority {
